@@ -11,6 +11,7 @@
 package c09
 
 import (
+	"bytes"
 	"context"
 	"encoding/binary"
 	"errors"
@@ -47,7 +48,10 @@ const chainID = "c09"
 // ---- replayable description of one case ----------------------------------------------------------
 
 // Seg is a run of blobs of one class: H i (signed header i), D i (signed data i), E (signed data without
-// txs), N i (signed data i without Metadata), J k (junk of kind k); junk runs may be long.  Items i below
+// txs), N i (signed data i without Metadata), X i (the proposer's signature of data i over a tx list that
+// differs from the posted one by one zero-length entry), J k (junk of kind k); junk runs may be long.
+// The tx lists of the data blobs are boundary-heavy (genTxs): zero-length, one-byte, repeated and large
+// transactions in every position, also lists of zero-length transactions only.  Items i below
 // nHdr / nData are the proposer's own; the ones above are forgeries (foreign key, proposer's address
 // claimed), which the code rejects since "fix: bind the signer's address to the signer's public key".
 type Seg struct {
@@ -114,6 +118,89 @@ type pool struct {
 	dataHash []string
 	empty    []byte
 	junk     [][][]byte // per kind: variants
+	// the transactions: a byte string is named by a number, 0 = the zero-length one, k+1 = txTable[k]
+	txTable  [][]byte
+	dataTxs  []string   // per data id: the posted tx list, as numbers joined by ';'
+	tampered [][]byte   // per data id: the signature of dataBlob[i], but the tx list on the wire is tamperTxs[i]
+	tamperTx []string   // (one zero-length entry inserted or removed)
+	txKinds  [][]string // per data id: the kind of every transaction (statistics)
+}
+
+func (p *pool) txCode(b []byte) int {
+	if len(b) == 0 {
+		return 0
+	}
+	for i, t := range p.txTable {
+		if bytes.Equal(t, b) {
+			return i + 1
+		}
+	}
+	return 999999 // a byte string nobody posted
+}
+
+func (p *pool) txStr(txs types.Txs) string {
+	var sb []string
+	for _, t := range txs {
+		c := p.txCode(t)
+		if c == 999999 && len(t) > 0 {
+			p.txTable = append(p.txTable, append([]byte{}, t...))
+			c = len(p.txTable)
+		}
+		sb = append(sb, fmt.Sprint(c))
+	}
+	return strings.Join(sb, ";")
+}
+
+// like txStr, but never extends the table: for what the implementation hands over
+func (p *pool) txStrObserved(txs types.Txs) string {
+	var sb []string
+	for _, t := range txs {
+		sb = append(sb, fmt.Sprint(p.txCode(t)))
+	}
+	return strings.Join(sb, ";")
+}
+
+// genTxs: 1-5 transactions, boundary-heavy, every kind in every position: zero-length (nil or empty slice),
+// one byte (incl. 0x00), a repetition of an earlier transaction of the list, large, ordinary (8-31 random bytes)
+func genTxs(r *rand.Rand, maxLarge int) (types.Txs, []string) {
+	var txs types.Txs
+	var kinds []string
+	n := 1 + r.Intn(5)
+	for t := 0; t < n; t++ {
+		switch x := r.Intn(100); {
+		case x < 26:
+			if r.Intn(2) == 0 {
+				txs = append(txs, nil)
+			} else {
+				txs = append(txs, []byte{})
+			}
+			kinds = append(kinds, "zero-length")
+		case x < 38:
+			b := rbytes(r, 1)
+			if r.Intn(4) == 0 {
+				b[0] = 0
+			}
+			txs = append(txs, b)
+			kinds = append(kinds, "one-byte")
+		case x < 52 && len(txs) > 0:
+			txs = append(txs, append([]byte{}, txs[r.Intn(len(txs))]...))
+			kinds = append(kinds, "repeated")
+		case x < 60:
+			sz := 1500 + r.Intn(3000)
+			if sz > maxLarge {
+				sz = maxLarge
+			}
+			if maxLarge > 100000 && r.Intn(4) == 0 {
+				sz = 70000 + r.Intn(60000)
+			}
+			txs = append(txs, rbytes(r, sz))
+			kinds = append(kinds, "large")
+		default:
+			txs = append(txs, rbytes(r, 8+r.Intn(24)))
+			kinds = append(kinds, "ordinary")
+		}
+	}
+	return txs, kinds
 }
 
 func rbytes(r *rand.Rand, n int) []byte { b := make([]byte, n); r.Read(b); return b }
@@ -175,7 +262,8 @@ func mb(x interface{ MarshalBinary() ([]byte, error) }) []byte {
 	return b
 }
 
-func newPool(r *rand.Rand) *pool {
+// maxLarge bounds the size of a "large" transaction (the back-pressure scenario keeps > 20000 decoded copies alive)
+func newPool(r *rand.Rand, maxLarge int) *pool {
 	p := &pool{}
 	prop := newKey(r)
 	foreign := newKey(r)
@@ -195,14 +283,49 @@ func newPool(r *rand.Rand) *pool {
 		if i >= nData {
 			k = foreign
 		}
+		// the commitment (= the id the caches and this harness know a Data by) is a function of the tx list:
+		// the lists of the pool are pairwise distinct (redrawn otherwise)
 		var txs types.Txs
-		for t := 0; t < 1+r.Intn(3); t++ {
-			txs = append(txs, rbytes(r, 8+r.Intn(24))) // >= 8 random bytes: commitments stay pairwise distinct
+		var kinds []string
+		for try := 0; ; try++ {
+			txs, kinds = genTxs(r, maxLarge)
+			c := (&types.Data{Txs: txs}).DACommitment().String()
+			dup := false
+			for _, h := range p.dataHash {
+				dup = dup || h == c
+			}
+			if !dup {
+				break
+			}
+			if try > 1000 {
+				panic("c09 harness: cannot draw pairwise distinct tx lists")
+			}
 		}
 		d := types.Data{Metadata: &types.Metadata{ChainID: chainID, Height: uint64(1 + r.Intn(50)), Time: uint64(r.Int63()), LastDataHash: rbytes(r, 32)}, Txs: txs}
-		p.dataBlob = append(p.dataBlob, mb(signData(d, k, prop.sg.Address)))
+		sd := signData(d, k, prop.sg.Address)
+		p.dataBlob = append(p.dataBlob, mb(sd))
 		p.noMeta = append(p.noMeta, mb(signData(types.Data{Txs: txs}, k, prop.sg.Address)))
 		p.dataHash = append(p.dataHash, d.DACommitment().String())
+		p.dataTxs = append(p.dataTxs, p.txStr(txs))
+		p.txKinds = append(p.txKinds, kinds)
+		// the same signature, but one zero-length entry more or less on the wire
+		var tw types.Txs
+		at := -1
+		for j, t := range txs {
+			if len(t) == 0 && (at < 0 || r.Intn(2) == 0) {
+				at = j
+			}
+		}
+		if at >= 0 && r.Intn(2) == 0 {
+			tw = append(append(types.Txs{}, txs[:at]...), txs[at+1:]...)
+		} else {
+			at = r.Intn(len(txs) + 1)
+			tw = append(append(append(types.Txs{}, txs[:at]...), []byte{}), txs[at:]...)
+		}
+		tsd := *sd
+		tsd.Data = types.Data{Metadata: d.Metadata, Txs: tw}
+		p.tampered = append(p.tampered, mb(&tsd))
+		p.tamperTx = append(p.tamperTx, p.txStr(tw))
 	}
 	for i := range p.dataHash {
 		for j := 0; j < i; j++ {
@@ -316,6 +439,8 @@ func (p *pool) expand(segs []Seg) []lblob {
 			out = append(out, lblob{p.empty, "E", 0})
 		case "N":
 			out = append(out, lblob{p.noMeta[s.I], "N", s.I})
+		case "X":
+			out = append(out, lblob{p.tampered[s.I], "X", s.I})
 		case "J":
 			n := s.N
 			if n == 0 {
@@ -467,6 +592,11 @@ func (d *scriptDA) Get(ctx context.Context, ids []coreda.ID, ns []byte) ([]cored
 type evt struct {
 	ID int
 	H  uint64
+	Tx string // data events: the transactions the event carried, as numbers (pool.txCode) joined by ';'
+}
+
+func (p *pool) dataEvt(e block.NewDataEvent) evt {
+	return evt{p.dataIDOf(e.Data.DACommitment().String()), e.DAHeight, p.txStrObserved(e.Data.Txs)}
 }
 
 type itemObs struct {
@@ -629,9 +759,9 @@ func runCase(t *testing.T, p *pool, rp *Replay) *caseResult {
 			for {
 				select {
 				case e := <-m.VerifHeaderInCh():
-					o.HEv = append(o.HEv, evt{p.hdrIDOf(e.Header.Hash().String()), e.DAHeight})
+					o.HEv = append(o.HEv, evt{p.hdrIDOf(e.Header.Hash().String()), e.DAHeight, ""})
 				case e := <-m.VerifDataInCh():
-					o.DEv = append(o.DEv, evt{p.dataIDOf(e.Data.DACommitment().String()), e.DAHeight})
+					o.DEv = append(o.DEv, p.dataEvt(e))
 				default:
 					break drain
 				}
@@ -716,11 +846,11 @@ func runBackpressure(t *testing.T, p *pool, rp *Replay) (viol, what []string, st
 			da.outs = append(da.outs, []Out{{K: "ok"}})
 			for _, b := range bl {
 				if b.cls == "H" {
-					wantH = append(wantH, evt{b.id, boot + uint64(k)})
+					wantH = append(wantH, evt{b.id, boot + uint64(k), ""})
 					perH[k]++
 				}
 				if b.cls == "D" {
-					wantD = append(wantD, evt{b.id, boot + uint64(k)})
+					wantD = append(wantD, evt{b.id, boot + uint64(k), p.dataTxs[b.id]})
 					perD[k]++
 				}
 			}
@@ -776,11 +906,11 @@ func runBackpressure(t *testing.T, p *pool, rp *Replay) (viol, what []string, st
 			}
 			for i := 0; i < lh; i++ {
 				e := <-m.VerifHeaderInCh()
-				gotH = append(gotH, evt{p.hdrIDOf(e.Header.Hash().String()), e.DAHeight})
+				gotH = append(gotH, evt{p.hdrIDOf(e.Header.Hash().String()), e.DAHeight, ""})
 			}
 			for i := 0; i < ld; i++ {
 				e := <-m.VerifDataInCh()
-				gotD = append(gotD, evt{p.dataIDOf(e.Data.DACommitment().String()), e.DAHeight})
+				gotD = append(gotD, p.dataEvt(e))
 			}
 		}
 		stats["rounds-blocked-on-full-channel"] = blockedRounds
@@ -986,10 +1116,10 @@ func oracle(p *pool, rp *Replay, r *caseResult) {
 			}
 			for _, b := range content(a.h) {
 				if b.cls == "H" && b.id < nHdr && !seenH[b.id] {
-					wantH = append(wantH, evt{b.id, a.h})
+					wantH = append(wantH, evt{b.id, a.h, ""})
 				}
 				if b.cls == "D" && b.id < nData && !seenD[b.id] {
-					wantD = append(wantD, evt{b.id, a.h})
+					wantD = append(wantD, evt{b.id, a.h, p.dataTxs[b.id]})
 				}
 			}
 		}
@@ -997,7 +1127,14 @@ func oracle(p *pool, rp *Replay, r *caseResult) {
 			r.fail("genuine-blob-not-handed", fmt.Sprintf("item %d: header events %v do not contain %v in order", it, o.HEv, wantH))
 		}
 		if !subseq(wantD, o.DEv) {
-			r.fail("genuine-blob-not-handed", fmt.Sprintf("item %d: data events %v do not contain %v in order", it, o.DEv, wantD))
+			r.fail("genuine-blob-not-handed", fmt.Sprintf("item %d: data events (id, DA height, txs) %v do not contain %v in order", it, o.DEv, wantD))
+		}
+		// what is handed over is what the proposer posted: a data event carries a tx list the proposer signed
+		// (same number of transactions, zero-length ones included, same bytes, same order)
+		for _, e := range o.DEv {
+			if e.ID >= nData || e.Tx != p.dataTxs[e.ID] {
+				r.fail("handed-data-not-as-posted", fmt.Sprintf("item %d: data event %v carries a tx list no genuine blob was posted with (posted: %v)", it, e, p.dataTxs[:nData]))
+			}
 		}
 	}
 }
@@ -1082,6 +1219,8 @@ func genItem(r *rand.Rand, poison bool) Seg {
 		return Seg{C: "E"}
 	case x < 63 && poison:
 		return Seg{C: "N", I: r.Intn(nDataAll)} // incl. the forged one: admitted the same way
+	case x >= 63 && x < 68:
+		return Seg{C: "X", I: r.Intn(nData)}
 	}
 	return Seg{C: "J", I: r.Intn(nJunkKind), N: 1 + r.Intn(3)}
 }
@@ -1242,7 +1381,7 @@ func tcaseCoq(p *pool, rp *Replay, cr *caseResult) string {
 		h := rp.DA[i]
 		var segs []string
 		for _, s := range h.Blobs {
-			segs = append(segs, segCoq(s))
+			segs = append(segs, segCoq(p, s))
 		}
 		bl := "[]"
 		if len(segs) > 0 {
@@ -1305,7 +1444,7 @@ func tcaseCoq(p *pool, rp *Replay, cr *caseResult) string {
 		if len(calls) == 0 {
 			calls = []string{"[]"}
 		}
-		segsOut = append(segsOut, fmt.Sprintf("{| ts_seen := %s;\n    ts_obs := OB %d (%s) %s %s %d |}", strings.Join(seen, "++"), o.Cursor, strings.Join(calls, "++"), evCoq(o.HEv), evCoq(o.DEv), o.Res))
+		segsOut = append(segsOut, fmt.Sprintf("{| ts_seen := %s;\n    ts_obs := OB %d (%s) %s %s %s %d |}", strings.Join(seen, "++"), o.Cursor, strings.Join(calls, "++"), evCoq(o.HEv), evCoq(o.DEv), dtxCoq(o.DEv), o.Res))
 	}
 	return fmt.Sprintf("{| tc_cfg := {| c_stored := %d; c_start := %d; c_seen_h := %s; c_seen_d := %s |};\n tc_da := %s;\n tc_segs := [%s] |}",
 		rp.Stored, rp.Start, nlist(rp.SeenH), nlist(rp.SeenD), strings.Join(da, "++"), strings.Join(segsOut, ";\n  "))
@@ -1313,22 +1452,23 @@ func tcaseCoq(p *pool, rp *Replay, cr *caseResult) string {
 
 // ---- Coq terms ----------------------------------------------------------------------------------------------
 
-func segCoq(s Seg) string {
+// The posts as the model is told them (Check/RetrieverCheck.v PH / PD / PX / JN): for SignedData blobs the tx
+// list on the wire, Metadata present?, signed with the proposer's key?, the tx list the signature covers — the
+// CLASS of such a blob is computed by the model (Model/Retriever.v classify_sd), not assigned here.
+func segCoq(p *pool, s Seg) string {
 	switch {
 	case s.C == "H" && s.I >= nHdr:
 		return "JN 100 1" // forged header claiming the proposer's address
-	case s.C == "D" && s.I >= nData:
-		return "JN 101 1" // forged data claiming the proposer's address
-	case s.C == "N" && s.I >= nData:
-		return "JN 102 1"
 	case s.C == "H":
-		return fmt.Sprintf("[BHeader %d]", s.I)
+		return fmt.Sprintf("PH %d", s.I)
 	case s.C == "D":
-		return fmt.Sprintf("[BData %d]", s.I)
+		return fmt.Sprintf("PD %d true %s [%s]", s.I, vgen.Bool(s.I < nData), p.dataTxs[s.I])
 	case s.C == "E":
-		return "[BEmptyData]"
+		return "PD 0 true true []"
 	case s.C == "N":
-		return fmt.Sprintf("[BDataNoMeta %d]", s.I)
+		return fmt.Sprintf("PD %d false %s [%s]", s.I, vgen.Bool(s.I < nData), p.dataTxs[s.I])
+	case s.C == "X":
+		return fmt.Sprintf("PX %d [%s] [%s]", s.I, p.tamperTx[s.I], p.dataTxs[s.I])
 	}
 	n := s.N
 	if n == 0 {
@@ -1357,6 +1497,14 @@ func nlist(xs []int) string {
 	return "[" + strings.Join(s, ";") + "]"
 }
 
+func dtxCoq(es []evt) string {
+	var s []string
+	for _, e := range es {
+		s = append(s, "["+e.Tx+"]")
+	}
+	return "[" + strings.Join(s, ";") + "]"
+}
+
 func evCoq(es []evt) string {
 	var s []string
 	for _, e := range es {
@@ -1370,7 +1518,7 @@ func caseCoq(p *pool, rp *Replay, cr *caseResult) string {
 	for _, h := range rp.DA {
 		var segs []string
 		for _, s := range h.Blobs {
-			segs = append(segs, segCoq(s))
+			segs = append(segs, segCoq(p, s))
 		}
 		bl := "[]"
 		if len(segs) > 0 {
@@ -1399,7 +1547,7 @@ func caseCoq(p *pool, rp *Replay, cr *caseResult) string {
 				calls = append(calls, fmt.Sprintf("CGetIDs %d", c.H))
 			}
 		}
-		obs = append(obs, fmt.Sprintf("OB %d [%s] %s %s %d", o.Cursor, strings.Join(calls, ";"), evCoq(o.HEv), evCoq(o.DEv), o.Res))
+		obs = append(obs, fmt.Sprintf("OB %d [%s] %s %s %s %d", o.Cursor, strings.Join(calls, ";"), evCoq(o.HEv), evCoq(o.DEv), dtxCoq(o.DEv), o.Res))
 	}
 	var marks []string
 	mk := func(isd bool, i int, v int64) {
@@ -1605,7 +1753,11 @@ func TestVerif(t *testing.T) {
 			gen++
 		}
 		// the pool derives from (seed, case) only, so a shrunk history stays replayable
-		p := newPool(rand.New(rand.NewSource(rp.Seed*7919 + int64(rp.Case) + 17)))
+		maxLarge := 1 << 20
+		if rp.Backpressure {
+			maxLarge = 300
+		}
+		p := newPool(rand.New(rand.NewSource(rp.Seed*7919+int64(rp.Case)+17)), maxLarge)
 		if rp.Backpressure {
 			viol, what, stats := runBackpressure(t, p, rp)
 			res.Evaluations++
@@ -1679,6 +1831,31 @@ func TestVerif(t *testing.T) {
 				if s.C == "N" {
 					poisoned = true
 				}
+				if s.C == "D" && s.I < nData {
+					ks := p.txKinds[s.I]
+					for ti, k := range ks {
+						res.Count("genuine-data-tx:" + k)
+						if k == "zero-length" {
+							switch {
+							case len(ks) == 1:
+								res.Count("genuine-data-zero-length-tx-at:only")
+							case ti == 0:
+								res.Count("genuine-data-zero-length-tx-at:first")
+							case ti == len(ks)-1:
+								res.Count("genuine-data-zero-length-tx-at:last")
+							default:
+								res.Count("genuine-data-zero-length-tx-at:middle")
+							}
+						}
+					}
+					allZero := true
+					for _, k := range ks {
+						allZero = allZero && k == "zero-length"
+					}
+					if allZero {
+						res.Count("genuine-data-with-zero-length-txs-only")
+					}
+				}
 				if s.N == 0 {
 					n++
 				} else {
@@ -1737,7 +1914,7 @@ func TestVerif(t *testing.T) {
 		res.Replays[fmt.Sprint(len(cases)+i)] = rp // tick cases are numbered after the ordinary ones
 	}
 	res.Distinct = len(distinct)
-	res.Rule = "real non-aggregator block.Manager (NewManager) on a scripted DA double; 1-6 (thorough 1-12) DA heights from max(stored, configured start), start heights from 0 to 2^62; per height 0-7 blobs or 100-500 blobs (several chunks, incl. exact multiples of 100) mixing real proposer-signed headers/data (ed25519), forgeries (foreign key claiming the proposer's address, rejected), signed data without txs / without metadata (ignored), and 16 kinds of junk (empty, random, truncated genuine, absurd length fields, other message types, foreign / corrupted / missing signatures, foreign key types, undecodable keys, trailing garbage, text); per height 0-4 scripted fetch outcomes (listing error with plain / not-found / from-the-future / both texts, nil listing, error on chunk i, ok) or runs of 9-13 errors, then usually ok; histories of 1-6 items: wake-ups of the real RetrieveLoop under testing/synctest (80%) and direct calls of processNextDAHeaderAndData; some ids pre-marked seen. non-trivial = at least 3 DA calls and 2 heights; distinct = distinct Coq case terms"
+	res.Rule = "real non-aggregator block.Manager (NewManager) on a scripted DA double; 1-6 (thorough 1-12) DA heights from max(stored, configured start), start heights from 0 to 2^62; per height 0-7 blobs or 100-500 blobs (several chunks, incl. exact multiples of 100) mixing real proposer-signed headers/data (ed25519; the tx list of a data blob has 1-5 transactions drawn per position from zero-length (26%), one byte (12%), repetition of an earlier one (14%), large 1.5-4.5 KB or 70-130 KB (8%), 8-31 random bytes (the rest) - lists of zero-length transactions only included; the tx lists of a case are pairwise distinct), the proposer's signature over a tx list that differs from the posted one by one zero-length entry (rejected), forgeries (foreign key claiming the proposer's address, rejected), signed data without txs / without metadata (ignored), and 16 kinds of junk (empty, random, truncated genuine, absurd length fields, other message types, foreign / corrupted / missing signatures, foreign key types, undecodable keys, trailing garbage, text); per height 0-4 scripted fetch outcomes (listing error with plain / not-found / from-the-future / both texts, nil listing, error on chunk i, ok) or runs of 9-13 errors, then usually ok; histories of 1-6 items: wake-ups of the real RetrieveLoop under testing/synctest (80%) and direct calls of processNextDAHeaderAndData; some ids pre-marked seen. non-trivial = at least 3 DA calls and 2 heights; distinct = distinct Coq case terms; every data event is recorded with the tx list it carried (byte strings numbered per case, 0 = zero-length) and compared with the posted list by the oracle (handed-data-not-as-posted) and by the model (mismatch code 8)"
 	res.Rule += "; PLUS the tick scenario (one case per ten, at least 8): 100-400 (thorough up to 900) DA heights, 3/4 empty, the rest 1-3 blobs, a third of the cases served at once throughout, otherwise 6% of the heights with 1-3 retried errors, 1% not yet there (from the future), 0.5% with 10-12 errors, 2% confirmed not-found; the loop is woken 1-4 times while quiescent and the DA double sends DA-block ticks (non-blocking sends on retrieveCh) from inside GetIDs, i.e. while iterations run and the continuation token is outstanding (one tick only / 2% / 10% / 35% / every call), so that select finds both channels ready and takes either; compared call by call with the two-channel loop model (lturn), liveness oracle: the loop goes quiet only at a height it could not pass; distinct for these = distinct scripted inputs"
 	res.Cases = len(cases) + len(tcases)
 	header := "From Coq Require Import NArith List Bool.\nFrom Verif Require Import Model.Retriever Check.RetrieverCheck.\nOpen Scope N_scope."
